@@ -91,7 +91,21 @@ pub fn generate(seed: u64, tier: Tier, check: &str) -> Scenario {
     let mut g = Gen::new(r.derive("final"));
     g.next_cseed = 1_000_000;
     g.clock = 1_000_000;
-    let burst = g.burst(&model, &cfg, 1 + r.usize(6));
+    let mut burst = g.burst(&model, &cfg, 1 + r.usize(6));
+    if seed % 4 == 1 {
+        // directed: the new tree replaces a populated directory by a symlink to another
+        // directory; killed after the link is recorded, the version is stitched onto one that
+        // still holds entries below that path
+        let mut m2 = model.clone();
+        for e in &burst {
+            m2.apply(e);
+        }
+        for e in g.dir_to_symlink_scaffold(&m2) {
+            if m2.apply(&e) {
+                burst.push(e);
+            }
+        }
+    }
     sc.steps.push(Step::Edit(burst));
     sc.steps.push(Step::Backup {
         opts,
